@@ -14,6 +14,11 @@ vectors, axial vectors (det(Q) Q r), second-order tensors (Q s Q^T), fourth-orde
 and the closed-form Euler-Bernoulli / Timoshenko cantilever (independent oracle for "response in the member's own
 axes does not depend on its inclination").
 Oracle: u_T = Q u, r_T = det(Q) Q r, scalars / energies equal, stresses Q s Q^T, K_T = R K R^T, M_T = R M R^T.
+
+Violation keys: kind, problem | theory, dim, elemType, material | structure, load, T, way, check (+ mesh / axes0 when not the
+default; beams: member_frames_symmetric = every member frame [i j k] of the original and of the moved structure is a
+symmetric matrix, the situation in which using P for P^T cannot be seen).  Per (case, way) only the FIRST failing check is
+reported (order: geometry, law tensor, K, M, displacement, stresses / internal forces, energies, closed form).
 """
 from __future__ import annotations
 
@@ -296,7 +301,7 @@ class _Cmp:
         where = ""
         if g.shape == w.shape and g.size > 1:
             i = int(np.argmax(np.abs(g - w)))
-            where = f" worst entry #{i}: got {g.ravel()[i]!r} want {w.ravel()[i]!r};"
+            where = f" worst entry #{i}: got {float(g.ravel()[i])!r} want {float(w.ravel()[i])!r};"
         elif g.size == 1 and w.size == 1:
             where = f" got {float(g.ravel()[0])!r} want {float(w.ravel()[0])!r};"
         self.fail.setdefault(way, []).append((name, f"{name}: relative error {e:.3e} > {tol:.0e};{where} {extra}".strip()))
@@ -522,8 +527,10 @@ def _solve_continuum(simu, case, sets, coords0, Q, fresh=True):
     Nn = simu.mesh.Nn
     if p == "thermal":
         obs["scalar"] = np.asarray(simu.thermal, dtype=float).copy()
-        K = simu.Get_K_C_M_F()[0].toarray()
+        Ks, Cs, _, _ = simu.Get_K_C_M_F()
+        K = Ks.toarray()
         obs["K"] = K
+        obs["C"] = Cs.toarray()
         obs["energy"] = float(0.5 * obs["scalar"] @ K @ obs["scalar"])
         return obs, nops + 1
     dd = d
@@ -563,6 +570,7 @@ def _compare_continuum(cmp: _Cmp, way, case, o0, oT, Q):
     d, p = case["dim"], case["problem"]
     if p == "thermal":
         cmp.check(way, "K_covariant", oT["K"], o0["K"], extra="(conduction matrix is invariant)")
+        cmp.check(way, "C_covariant", oT["C"], o0["C"], extra="(capacity matrix is invariant)")
         cmp.check(way, "scalar_field", oT["scalar"], o0["scalar"])
         cmp.check(way, "energy", oT["energy"], o0["energy"])
         return
@@ -812,11 +820,12 @@ def _beam_observe(simu, case, nmap, elem_of):
 
 
 def _beam_K(simu, nmap, dof_n):
+    """Assembled (K, M) restricted to the displacement dofs, re-indexed with the ORIGINAL node numbering."""
     Nn = simu.mesh.Nn
     n = Nn * dof_n
-    K = simu.Get_K_C_M_F()[0].toarray()[:n, :n]
+    K, _, M, _ = simu.Get_K_C_M_F()
     dofs = (nmap[:, None] * dof_n + np.arange(dof_n)[None, :]).ravel()
-    return K[np.ix_(dofs, dofs)]
+    return K.toarray()[:n, :n][np.ix_(dofs, dofs)], M.toarray()[:n, :n][np.ix_(dofs, dofs)]
 
 
 def _elem_map(connect0, connectT, nmap):
@@ -929,7 +938,7 @@ def _run_beam(case):
         ident = np.arange(coords0.shape[0])
         eident = np.arange(connect0.shape[0])
         simu0 = Simulations.Beam(mesh0, Models.Beam.BeamStructure(beams0), useTimoshenko=timo)
-        K0 = _beam_K(simu0, ident, dof_n)
+        K0, Mass0 = _beam_K(simu0, ident, dof_n)
         nops += _beam_solve(simu0, case, sets, ident, np.eye(3))
         o0, n = _beam_observe(simu0, case, ident, eident)
         nops += n + 3
@@ -953,8 +962,10 @@ def _run_beam(case):
 
         closed_form("original", o0, np.eye(3))
 
-        def compare(way, oT, KT):
+        def compare(way, oT, KMT):
+            KT, MT = KMT
             cmp.check(way, "K_covariant", KT, _rotate_blocks(K0, B), extra="(assembled K vs R K0 R^T, R = blockdiag[Q, det(Q) Q] per node)")
+            cmp.check(way, "M_covariant", MT, _rotate_blocks(Mass0, B))
             cmp.check(way, "displacement", oT["U"], o0["U"] @ B.T,
                       extra="(node dofs [u, r] vs [Q u, det(Q) Q r] of the original)")
             for nm in o0:
